@@ -9,12 +9,15 @@ BUILD = os.path.join(VERIF, "build")
 GUARD = "CPPCMS_VERIF"
 NCPU = int(os.environ.get("VERIF_JOBS", str(os.cpu_count() or 4)))
 
-SAN_ASAN = "-fsanitize=address,undefined,fuzzer-no-link -fno-sanitize-recover=undefined"
-SAN_TSAN = "-fsanitize=thread"
+# nonnull-attribute is off: memcpy(p, q, 0) with p == NULL (empty stream buffer) is reported otherwise, which is not a violation of
+# any listed property (DESIGN.md 2.2).  _GLIBCXX_ASSERTIONS turns libstdc++ precondition violations (front() of an empty vector,
+# operator[] out of range) inside the library into aborts, so silent misuse of containers becomes visible.
+SAN_ASAN = "-fsanitize=address,undefined,fuzzer-no-link -fno-sanitize-recover=undefined -fno-sanitize=nonnull-attribute -D_GLIBCXX_ASSERTIONS"
+SAN_TSAN = "-fsanitize=thread -D_GLIBCXX_ASSERTIONS"
 COMMON_CXX = "-g -O1 -fno-omit-frame-pointer -Wno-error -Wno-deprecated-declarations -D%s" % GUARD
 
 CFGS = {
-    "asan": dict(cxx=COMMON_CXX + " " + SAN_ASAN, c="-g -O1 " + SAN_ASAN.replace(" -fno-sanitize-recover=undefined", ""),
+    "asan": dict(cxx=COMMON_CXX + " " + SAN_ASAN, c="-g -O1 -fsanitize=address,undefined,fuzzer-no-link",
                  link="-fsanitize=address,undefined"),
     "tsan": dict(cxx=COMMON_CXX + " " + SAN_TSAN, c="-g -O1 " + SAN_TSAN, link="-fsanitize=thread"),
 }
@@ -32,7 +35,7 @@ def repo_tag():
 
 
 def cfg_dir(cfg):
-    return os.path.join(BUILD, cfg + repo_tag())
+    return os.path.join(BUILD, cfg + "2" + repo_tag())
 
 
 class Lock:
@@ -119,11 +122,11 @@ def build_harness(name, srcs, cfg="asan", fuzzer=False, rapidcheck=False, wraps=
     target = os.path.join(outdir, name)
     depfile = target + ".d"
     if cfg == "tsan":
-        san = ["-fsanitize=thread"]
+        san = ["-fsanitize=thread", "-D_GLIBCXX_ASSERTIONS"]
     elif cfg is None:
         san = []
     else:
-        san = ["-fsanitize=address,undefined" + (",fuzzer" if fuzzer else ""), "-fno-sanitize-recover=undefined"]
+        san = ["-fsanitize=address,undefined" + (",fuzzer" if fuzzer else ""), "-fno-sanitize-recover=undefined", "-fno-sanitize=nonnull-attribute", "-D_GLIBCXX_ASSERTIONS"]
     cmd = ["clang++", "-std=" + std, "-g", opt or "-O1", "-fno-omit-frame-pointer", "-D" + GUARD,
            "-Wno-deprecated-declarations"] + san + includes(cfg if (cfg and not header_only) else None) + list(extra) + srcs
     for w in wraps:
@@ -170,7 +173,9 @@ def build_many(specs):
 
 def san_env(cfg="asan"):
     e = dict(os.environ)
-    e["ASAN_OPTIONS"] = "detect_leaks=0:abort_on_error=0:exitcode=77:allocator_may_return_null=1:detect_stack_use_after_return=0:handle_abort=1"
+    # malloc_context_size/quarantine: rapidcheck makes ASan's stack depot and quarantine grow to GBs otherwise
+    e["ASAN_OPTIONS"] = ("detect_leaks=0:abort_on_error=0:exitcode=77:allocator_may_return_null=1:detect_stack_use_after_return=0:"
+                         "handle_abort=1:malloc_context_size=8:quarantine_size_mb=64")
     e["UBSAN_OPTIONS"] = "print_stacktrace=1:halt_on_error=1:exitcode=78"
     e["TSAN_OPTIONS"] = "halt_on_error=1:exitcode=79:second_deadlock_stack=1:report_signal_unsafe=0"
     e["ASAN_SYMBOLIZER_PATH"] = shutil.which("llvm-symbolizer") or shutil.which("llvm-symbolizer-14") or ""
@@ -211,8 +216,35 @@ def run_units(units, prop, seed, tier, jobs=None):
     sdir = scratch_dir(prop)
     rdir = replay_dir(prop)
 
+    slots_dir = os.path.join(BUILD, ".slots")
+    os.makedirs(slots_dir, exist_ok=True)
+    nslots = int(os.environ.get("VERIF_SLOTS", str(NCPU + 2)))
+
+    def acquire_slot():
+        # machine-wide cap on concurrently running harness processes (several checks may run at once)
+        import random
+        while True:
+            order = list(range(nslots))
+            random.shuffle(order)
+            for k in order:
+                f = open(os.path.join(slots_dir, "slot-%d" % k), "w")
+                try:
+                    fcntl.flock(f, fcntl.LOCK_EX | fcntl.LOCK_NB)
+                    return f
+                except OSError:
+                    f.close()
+            time.sleep(0.2)
+
     def one(i_u):
         i, u = i_u
+        slot = acquire_slot()
+        try:
+            return one_locked(i, u)
+        finally:
+            fcntl.flock(slot, fcntl.LOCK_UN)
+            slot.close()
+
+    def one_locked(i, u):
         env = san_env()
         env.update({"VERIF_SEED": str(seed), "VERIF_TIER": tier, "VERIF_PROP": prop,
                     "VERIF_REPORT": os.path.join(sdir, "report-%d.json" % i),
@@ -264,6 +296,8 @@ class Result:
         self.assumptions = []
         self.extra = {}
         self.known_printed = []
+        self.nonreplay_sig = None     # optional: failure -> signature to use when it did not replay (schedule dependent classes)
+        self.schedule_dependent = []
 
     def absorb(self, units, floor=None):
         """Merge unit reports.  floor: {group: minimum evaluations} -> broken if not reached."""
@@ -349,6 +383,17 @@ class Result:
             ok = True
             if replay_fn and f.get("replay") and os.path.exists(f["replay"]):
                 fails = sum(1 for _ in range(3) if replay_fn(f["replay"]))
+                if fails == 0 and self.nonreplay_sig and self.nonreplay_sig(f):
+                    # a failure class that is known to depend on the thread schedule: re-classified, then matched against
+                    # the known findings like any other signature (an unlisted one stays a broken/flaky check)
+                    nsig = self.nonreplay_sig(f)
+                    k = next((k for k in known if k.get("status") == "known" and sig_match(k.get("signature", ""), nsig)), None)
+                    if k:
+                        self.schedule_dependent.append({"sig": f.get("sig"), "as": nsig, "replay": f.get("replay")})
+                        if k["signature"] not in self.known_printed:
+                            self.known_printed.append(k["signature"])
+                            print("KNOWN-FINDING: property=%s %s" % (self.prop, k.get("text", k["signature"])), flush=True)
+                        continue
                 if fails == 0:
                     self.broken.append("failure %s did not replay from %s (flaky)\n%s" % (f.get("sig"), f["replay"], f.get("msg", "")[-2000:]))
                     ok = False
@@ -375,6 +420,7 @@ class Result:
             "coverage": cov, "assumptions": self.assumptions, "wall_s": round(time.time() - self.t0, 2),
             "violations": len(violations),
             "known_findings_reported": self.known_printed,
+            "schedule_dependent_failures": self.schedule_dependent,
             "broken": self.broken,
             "repo": REPO,
         }
@@ -481,12 +527,13 @@ def make_replay(bins, fuzz_names=(), extra_env=None):
 
 
 def standard(prop, tier, seed, specs, units_fn, rule, level="exploration", floor=None, assumptions=(), fuzz_names=(),
-             post=None, replay_env=None, extra=None, exhaustive=None, jobs=None):
+             post=None, replay_env=None, extra=None, exhaustive=None, jobs=None, nonreplay_sig=None, replay_fn=None):
     """The usual shape of a check: build, run units in parallel, merge, confirm failures by replay, write evidence."""
     res = Result(prop, tier, seed, level)
     res.rule = rule
     res.assumptions = list(assumptions)
     res.exhaustive = exhaustive
+    res.nonreplay_sig = nonreplay_sig
     if extra:
         res.extra.update(extra)
     bins = build_many(specs)
@@ -495,7 +542,7 @@ def standard(prop, tier, seed, specs, units_fn, rule, level="exploration", floor
     res.absorb(units, floor=floor(tier) if callable(floor) else floor)
     if post:
         post(res, units, bins)
-    rc = res.finish(make_replay(bins, fuzz_names, replay_env))
+    rc = res.finish(replay_fn(bins) if replay_fn else make_replay(bins, fuzz_names, replay_env))
     shutil.rmtree(sdir, ignore_errors=True)
     shutil.rmtree(os.path.join(BUILD, "scratch", "replay-%d" % os.getpid()), ignore_errors=True)
     shutil.rmtree(os.path.join(BUILD, "scratch", "replay-out-%d" % os.getpid()), ignore_errors=True)
